@@ -89,4 +89,34 @@ theorem reload_succeeds (cs : Codecs) (ss : Sheet) (h : Inv cs ss) : ∃ r, relo
   obtain ⟨m, hm⟩ := Option.isSome_iff_exists.mp this
   exact ⟨_, by rw [hm]; rfl⟩
 
+/-! ## the concrete pattern-fill codec (after fix 90daeac) -/
+
+theorem Color.norm_idem (c : Color) : c.norm.norm = c.norm := by
+  unfold Color.norm
+  cases c.theme <;> cases c.indexed <;> simp
+
+theorem Color.norm_isBlank (c : Color) : c.norm.isBlank = c.isBlank := by
+  unfold Color.norm Color.isBlank
+  cases c.theme <;> cases c.indexed <;> simp
+
+theorem Color.rt_rt (c d : Color) (h : c.rt = some d) : d.rt = some d := by
+  unfold Color.rt at h ⊢
+  split at h
+  · cases h
+  · rename_i hb
+    cases h
+    rw [Color.norm_isBlank, Color.norm_idem]
+    simp [hb]
+
+theorem optColor_rt_idem (o : Option Color) : (o.bind Color.rt).bind Color.rt = o.bind Color.rt := by
+  cases o with
+  | none => rfl
+  | some c =>
+    cases h : c.rt with
+    | none => simp [h]
+    | some d => simp [h, Color.rt_rt c d h]
+
+theorem PatternFill.norm_idem (p : PatternFill) : p.norm.norm = p.norm := by
+  simp [PatternFill.norm, PatternFill.read, PatternFill.write, optColor_rt_idem]
+
 end Umya.Style
